@@ -749,12 +749,18 @@ pub fn run_c19_case(p: &Program, cfg: &Config, rng: &mut crate::rng::Rng) -> Cas
         let need = t0.max_path;
         if need >= 2 {
             let mut c = cfg.clone();
-            c.max_branches = need - 1;
-            let (r, _) = trace_run(p, &c);
-            limit_runs += 1;
-            let ok = matches!(&r.status, LoomStatus::Failed { class: FailClass::BranchLimit, .. });
-            if !ok {
-                rep.violations.push(viol("limits", format!("max_branches = {} (one less than needed): expected the documented branch-limit panic, got {}", need - 1, status_text(&r.status)), json!({})));
+            // every value below the need ("all limit values around the exact need": the limit may
+            // strike at a scheduling branch, a reads-from branch or a spurious-wake-up branch)
+            let budgets: Vec<usize> = if need <= 32 { (1..need).collect() } else { vec![need / 2, need - 3, need - 2, need - 1] };
+            for b in budgets {
+                c.max_branches = b;
+                let (r, _) = trace_run(p, &c);
+                limit_runs += 1;
+                let ok = matches!(&r.status, LoomStatus::Failed { class: FailClass::BranchLimit, .. });
+                if !ok {
+                    rep.violations.push(viol("limits", format!("max_branches = {} (the longest execution needs {}): expected the documented branch-limit panic, got {}", b, need, status_text(&r.status)), json!({})));
+                    break;
+                }
             }
             c.max_branches = need;
             let (r, t) = trace_run(p, &c);
